@@ -322,19 +322,23 @@ def norm_text(s):
 
 
 class Obligation(object):
-    __slots__ = ("rule", "where", "text", "status", "detail", "line")
+    __slots__ = ("rule", "where", "text", "status", "detail", "line", "count")
 
-    def __init__(self, rule, where_, text, status, detail, line):
+    def __init__(self, rule, where_, text, status, detail, line, count=1):
         self.rule, self.where, self.text = rule, where_, norm_text(text)
         self.status, self.detail, self.line = status, norm_text(detail), line
+        self.count = count
 
     @property
     def key(self):
         return "%s|%s|%s" % (self.rule, self.where, self.text)
 
     def as_dict(self, pid):
-        return {"property": pid, "rule": self.rule, "where": self.where, "line": self.line,
-                "construct": self.text, "status": self.status, "detail": self.detail, "key": self.key}
+        d = {"property": pid, "rule": self.rule, "where": self.where, "line": self.line,
+             "construct": self.text, "status": self.status, "detail": self.detail, "key": self.key}
+        if self.count != 1:
+            d["instances"] = self.count
+        return d
 
 
 class Check(object):
@@ -360,6 +364,10 @@ class Check(object):
 
     def bad(self, rule, where_, text, why, node=None):
         self.obls.append(Obligation(rule, where_, text, "violated", why, getattr(node, "lineno", None)))
+
+    def ok_many(self, rule, where_, text, count, detail="", node=None):
+        """``count`` instances of one obligation family, all discharged (kept as one record)."""
+        self.obls.append(Obligation(rule, where_, text, "discharged", detail, getattr(node, "lineno", None), count))
 
     def decide(self, cond, rule, where_, text, why="", detail="", node=None):
         if cond:
@@ -437,15 +445,15 @@ def finish(chk, t0, seed, error=None, extra_cov=None, out=sys.stdout, write=True
             lines.append("  construct: %s" % o.text)
             lines.append("  why: %s" % o.detail)
 
-    nob = len(chk.obls)
-    ndis = len([o for o in chk.obls if o.status == "discharged"])
+    nob = sum(o.count for o in chk.obls)
+    ndis = sum(o.count for o in chk.obls if o.status == "discharged")
     distinct = len({(o.rule, o.where, o.text) for o in chk.obls})
     constructs = len({o.where for o in chk.obls})
     per_rule = {}
     for o in chk.obls:
         d = per_rule.setdefault(o.rule, {"obligations": 0, "discharged": 0})
-        d["obligations"] += 1
-        d["discharged"] += o.status == "discharged"
+        d["obligations"] += o.count
+        d["discharged"] += o.count if o.status == "discharged" else 0
     samples = []
     seen_rules = set()
     for o in chk.obls:            # one sample per rule first, then fill
